@@ -46,6 +46,7 @@ def run_case(case):
         return res
     name, show_pa, pa = None, False, 0
     after_switch = False
+    other_obj = None
     for op in case["ops"]:
         k = op[0]
         try:
@@ -89,6 +90,19 @@ def run_case(case):
                 b.__enter__()
                 name, show_pa = None, False
                 after_switch = True
+            elif k == "other":
+                # the `with` blocks of the property: between two blocks of the FakeBLE object another driver object on the
+                # same radio (examples/nrf24l01_context_test.py) has its own block on its own frequency and payload length
+                b.__exit__(None, None, None)
+                if other_obj is None:
+                    other_obj = make_spidev_radio(L.RF24, chip)
+                with other_obj:
+                    other_obj.channel = op[1]
+                    other_obj.payload_length = op[2]
+                b.__enter__()
+                name, show_pa = None, False
+                after_switch = True
+                res.label("another-objects-block-in-between")
             elif k == "adv":
                 chunks = [ble.ad(t, bytes.fromhex(h)) for t, h in op[2]]
                 form = op[1]
@@ -214,7 +228,7 @@ def _strategy():
         ops = []
         name_len, show = None, False
         for _ in range(draw(st.integers(1, 10))):
-            k = draw(st.sampled_from(["name", "show_pa", "pa_level", "hop", "hop", "channel", "ctx", "adv", "adv", "adv"]))
+            k = draw(st.sampled_from(["name", "show_pa", "pa_level", "hop", "hop", "channel", "ctx", "other", "adv", "adv", "adv"]))
             if k == "name":
                 v = draw(namev)
                 ops.append(["name", v])
@@ -234,6 +248,9 @@ def _strategy():
                 ops.append(["channel", draw(st.sampled_from([2, 26, 80, 2, 26, 80, 37, 76, 0, 126]))])
             elif k == "ctx":
                 ops.append(["ctx"])
+                name_len, show = None, False
+            elif k == "other":
+                ops.append(["other", draw(st.sampled_from([76, 76, 2, 26, 80, 125, 0])), draw(st.sampled_from([32, 8, 1, 20, 31]))])
                 name_len, show = None, False
             else:
                 cap = 18 - (0 if name_len is None else name_len + 2) - (3 if show else 0)
@@ -261,7 +278,7 @@ def _enum(names, offsets):
     def gen():
         import itertools
         for nm, show, pa, tune, form, off, reps in itertools.product(
-                names, (False, True, 4), (-18, 0), ("hop", "channel", "ctx"), ("single", "list", "tuple", "list_ba"), offsets, (1, 3)):
+                names, (False, True, 4), (-18, 0), ("hop", "channel", "ctx", "other"), ("single", "list", "tuple", "list_ba"), offsets, (1, 3)):
             nlen = None if nm is None else len(nm.encode())
             if nlen is not None and nlen + 2 + (3 if show else 0) > 18:
                 continue
@@ -274,7 +291,8 @@ def _enum(names, offsets):
             else:
                 a = (target - 4) // 2
                 chunks = [[0x16, bytes(range(0x41, 0x41 + a)).hex()], [0xFF, bytes(range(0x61, 0x61 + target - 4 - a)).hex()]]
-            pre = {"hop": [["hop"]], "channel": [["channel", 26]], "ctx": [["channel", 80], ["ctx"]]}[tune]
+            pre = {"hop": [["hop"]], "channel": [["channel", 26]], "ctx": [["channel", 80], ["ctx"]],
+                   "other": [["channel", 80], ["other", 76, 8]]}[tune]
             # a with-block exit resets name and show_pa_level, so they are configured after it
             ops = pre + [["show_pa", show], ["name", None if nm is None else {"s": nm}], ["pa_level", pa], ["adv", form, chunks, reps]]
             yield {"mac": "c0ffee0102e3", "ops": ops}
